@@ -1,2 +1,85 @@
+"""Runs the Lean driver on the operation files the engines wrote and compares its transcript with the
+implementation's, line by line. A divergence is a broken correspondence (not by itself a violation)."""
+import glob, os, subprocess, concurrent.futures
+
+def drv_path(ROOT):
+    return os.path.join(ROOT, "lean", ".lake", "build", "bin", "drv")
+
+def one(drv, mode, ops_file):
+    base = ops_file[:-4]
+    impl = base + ".impl"
+    if not os.path.exists(impl):
+        return None
+    args = [drv, mode]
+    if mode == "chain":
+        # the power parameters are read from the implementation's first dump line
+        pr, cr = "1000000", "1"
+        with open(impl) as f:
+            for l in f:
+                if l.startswith("| H "):
+                    for tok in l.split():
+                        if tok.startswith("pr="):
+                            pr = tok[3:]
+                        if tok.startswith("cr="):
+                            cr = tok[3:]
+                    break
+        args += [pr, cr]
+    with open(ops_file) as fin, open(base + ".model", "w") as fout:
+        r = subprocess.run(args, stdin=fin, stdout=fout, stderr=subprocess.PIPE, text=True, timeout=600)
+    if r.returncode != 0:
+        return (ops_file, 0, "driver failed: " + r.stderr[-500:])
+    a = [l.rstrip("\n") for l in open(impl) if not l.startswith("# ")]
+    b = [l.rstrip("\n") for l in open(base + ".model")]
+    n = 0
+    for x, y in zip(a, b):
+        if x != y:
+            # locate the operation
+            op = ""
+            for k in range(n, -1, -1):
+                if a[k].startswith("> "):
+                    op = a[k]
+                    break
+            return (ops_file, n, "line %d after %s\n  implementation: %s\n  model:          %s" % (n + 1, op, x, y))
+        n += 1
+    if len(a) != len(b):
+        return (ops_file, n, "transcripts have different lengths (%d vs %d)" % (len(a), len(b)))
+    return (ops_file, n, None)
+
 def run(stats, ROOT, CACHE, pid, res):
+    drv = drv_path(ROOT)
+    if not os.path.exists(drv):
+        res["problems"].append(("model-driver", "the Lean driver executable is missing (lake build failed?)"))
+        return res
+    jobs = []
+    for st in stats:
+        wd = st.get("workdir")
+        if not wd:
+            continue
+        eng = st.get("engine")
+        for f in sorted(glob.glob(os.path.join(wd, "*.ops"))):
+            if os.path.basename(f).startswith("shrink"):
+                continue
+            mode = eng
+            if eng == "corpus":
+                head = open(f).readline()
+                mode = "chain"
+                if "engine=" in head:
+                    mode = head.split("engine=")[1].split()[0]
+            if mode in ("chain", "ante", "pure"):
+                jobs.append((mode, f))
+    with concurrent.futures.ThreadPoolExecutor(max_workers=12) as ex:
+        outs = list(ex.map(lambda j: one(drv, j[0], j[1]), jobs))
+    div = []
+    for o in outs:
+        if o is None:
+            continue
+        f, n, msg = o
+        res["compared_histories"] += 1
+        res["compared_lines"] += n
+        if msg:
+            div.append((f, msg))
+    if div:
+        txt = "\n".join("%s: %s" % d for d in div[:5])
+        res["problems"].append(("correspondence", "model and implementation disagree on %d of %d histories; first:\n%s" % (len(div), len(outs), txt)))
+        res["divergent"] = [d[0] for d in div]
     return res
